@@ -42,8 +42,8 @@ MODELLED = ('image._standardize_frame_index, get_raw_frame (native byte range in
             'planar configuration handed to the one-frame dataset); in-memory image with pydicom\'s cache of the '
             'decoded array (Dataset.pixel_array validation, reset on PixelData assignment) under histories of reads '
             'and edits: get_stored_frame / get_stored_frames / pixel_array / get_raw_frame / decode_frame(raw); '
-            'the same for a lazily read image (Image.pixel_array lazy branch caching self._pixel_array without '
-            'validation); encapsulated streams at BYTE level (fragment payloads, _build_bot marker detection FF D8 / '
+            'the same for a lazily read image (Image.pixel_array lazy branch: self._pixel_array validated against '
+            'get_image_pixel_ids, dropped and re-read when stale); encapsulated streams at BYTE level (fragment payloads, _build_bot marker detection FF D8 / '
             'FF 4F, b"".join(fragments)) through ImageFileReader.read_frame_raw and through hd.imread(lazy).get_raw_frame; '
             'native read_frame_raw on the bytes of the file (_read_metadata header_offset 8 / 12, trailing elements)')
 STRATA = ['native', 'index', 'reader_index', 'reader_neg', 'raw422', 'encaps', 'encaps_bad', 'codec', 'codec1', 'fixture',
@@ -69,7 +69,7 @@ RULE = ('native: BitsAllocated 1/8/16/32 x signed x 1|3 samples x 1..6 frames, r
         'with a PixelData of the matching length. lazy_history: the same reads on a lazily read image (bytes / path / '
         'file object / BytesIO) with header edits (PixelRepresentation, BitsStored, Rows<->Columns, '
         'PlanarConfiguration), every kind of read first after an edit with pixel_array called before the edit (warm: '
-        'the finding C05_lazy_history_refuted) and not (cold: must be fresh). encaps / encaps_bad: returned BYTES '
+        'finding D105, fixed) and not (cold). encaps / encaps_bad: returned BYTES '
         'compared, reader and lazily read Image (frame numbers and indices); reader_index: 40 % of the files carry a '
         'Data Set Trailing Padding element after PixelData. non-trivial = more than one frame or a '
         'rejected request (history: at least one edit)')
@@ -1437,25 +1437,10 @@ def shrink(c):
 
 # D50 (ImageFileReader.read_frame_raw wrapped negative indices) was found by this check and is fixed;
 # the 'reader_neg' stream keeps -1 .. -n-1 in the must-reject set.
-def _lazy_edit_after_whole(c):
-    """Signature of the lazy-image finding (C05_lazy_history_refuted): on a lazily read image a header edit
-    that changes something, made after pixel_array was called, is ignored by every later read."""
-    if c.get('kind') != 'lazy_history':
-        return False
-    cached, cur = False, {k: c.get(k) for k in HEADER_KEYS}
-    for o in c['ops']:
-        if o[0] == 'whole':
-            cached = True
-        elif o[0] == 'header':
-            changed = any(cur.get(k) != v for k, v in o[1].items())
-            cur.update(o[1])
-            if cached and changed:
-                return True
-    return False
-
-
-# active only while the id is recorded as "open" for C05 in KNOWN_FINDINGS.json
-FINDINGS = {'D102': _lazy_edit_after_whole}
+# D105 (a lazily read image kept serving its cached pixel_array after a header edit) was found by this check
+# ('lazy_history', warm cases) and is fixed; corpus/C05/lazy_stale_after_edit.json keeps the witness in every run.
+# No open findings.
+FINDINGS = {}
 
 
 def extra_obligations(work):
